@@ -90,6 +90,12 @@ func healthySpec(r *rand.Rand, size int, cfg *scen.Config) *simcluster.Spec {
 		}
 		cs.Delay = 0
 	}
+	if size == 3 && r.Intn(3) == 0 {
+		// the link between the first and the last position is down from the start; both reach the middle one, which
+		// relays what it merges (and takes part in the full-state exchanges) - entries still arrive well within the
+		// peer timeout, so the no-duplicate clause applies
+		cs.Events = append(cs.Events, simcluster.Event{At: 0, Kind: "cutlink", Node: 0, Group: []int{2}})
+	}
 	return cs
 }
 
